@@ -831,6 +831,7 @@ pub fn check_cellsim(property: &str, tier: &str) -> i32 {
     let mut hist: BTreeSet<String> = BTreeSet::new();
     let mut ops: BTreeMap<String, u64> = BTreeMap::new();
     let mut policies: BTreeMap<String, u64> = BTreeMap::new();
+    let mut modes: BTreeMap<String, u64> = BTreeMap::new();
     let mut probes: BTreeMap<String, u64> = BTreeMap::new();
     let mut rejected: BTreeMap<String, u64> = BTreeMap::new();
     let mut failing = 0u64;
@@ -863,6 +864,7 @@ pub fn check_cellsim(property: &str, tier: &str) -> i32 {
                 }
                 add(&mut ops, &v["ops"]);
                 add(&mut policies, &v["policies"]);
+                add(&mut modes, &v["modes"]);
                 add(&mut probes, &v["probes"]);
                 add(&mut rejected, &v["rejected"]);
                 for h in v["harness_errors"].as_array().cloned().unwrap_or_default() {
@@ -1045,6 +1047,7 @@ pub fn check_cellsim(property: &str, tier: &str) -> i32 {
         "seeds_per_hour": (n as f64 / wall * 3600.0) as u64,
         "operations_by_kind": ops,
         "scheduler_policies": policies,
+        "runs_by_workload_family": modes,
         "fault_kinds_fired": {"failing_compound_assignment": failing, "hash_key_reseed": n, "attack_assignments_rejected_by_checker": rejected.values().sum::<u64>()},
         "probes": probes,
         "overlapping_read_modify_write_pairs": overlapped,
